@@ -379,6 +379,60 @@ def run_atx(kind, out):
     return cmd, r, log
 
 
+class HatSerial:
+    """ATX hat model for command SEQUENCES on one driver object: each transmitted line is answered with k lines of
+    foreign bus traffic ('H....') followed by the line for this transmission ('N' / 'Jxx')."""
+
+    def __init__(self, plan, log):
+        self.plan, self.log, self.rx = plan, log, []
+
+    def write(self, data):
+        self.log.append(bytes(data))
+        k, line, reps = self.plan.pop(0) if self.plan else (0, b"N\n", 1)
+        self.rx += [b"HFE80\n"] * k + [line] * reps           # ('t' prefix: the hat repeats the frame itself and reports both)
+
+    def read_until(self, term):
+        return self.rx.pop(0) if self.rx else b""
+
+    def close(self):
+        pass
+
+
+def run_atx_sequence(spec, foreign):
+    """spec: [(kind, out)], foreign: lines of other traffic the hat reports before each answer line."""
+    import dali.driver.atxled as AX
+    import logging
+    cmds = [build_cmd(kind, i + 1) for i, (kind, out) in enumerate(spec)]
+    plan = []
+    for c, (kind, out), k in zip(cmds, spec, foreign):
+        line = b"N\n" if out[0] == "none" else b"J%02X\n" % out[1]
+        plan.append((k, line, 2 if c.sendtwice else 1))
+    log = []
+    ser = HatSerial(plan, log)
+
+    class _Ser:
+        PARITY_NONE = STOPBITS_ONE = EIGHTBITS = 0
+
+        @staticmethod
+        def Serial(**kw):
+            return ser
+
+    class _T:
+        @staticmethod
+        def sleep(x):
+            pass
+    AX.serial = _Ser
+    AX.time = _T
+    d = AX.SyncDaliHatDriver(port="/dev/fake", LOG=logging.getLogger("null"))
+    results = []
+    for c in cmds:
+        try:
+            results.append(d.send(c))
+        except Exception as e:
+            results.append(e)
+    return cmds, results, ser.rx
+
+
 # ----------------------------------------------------------------------------- shards
 
 SEL_PAIRS = [("num", "num"), ("yn", "num"), ("dt", "num"), ("twice", "num"), ("off", "num"), ("num", "dt"),
@@ -499,6 +553,19 @@ def run_shard(shard):
                         o = judge_result(res, "daliserver", kind, out, cmd, r, True, case, f"command {j + 1} of {L}, persistent={multi}", others)
                         outs.add(("daliserver-seq", kind, o))
                     res["evaluations"] += 1
+        # ATX hat: 7 commands through ONE driver object, 0..2 lines of other bus traffic reported before every answer
+        for pattern in (("num", "num", "off", "num", "yn", "num", "num"), ("num", "twice", "num", "num", "off", "bits", "num")):
+            for foreign in itertools.product((0, 1, 2), repeat=7):
+                vals = [(k, ("none",) if k in ("off", "twice") else ("value", 0x30 + i)) for i, k in enumerate(pattern)]
+                cmds, results, left = run_atx_sequence(vals, foreign)
+                case = {"driver": "atx", "spec": [[k, list(o)] for k, o in vals], "mode": "atx-seq", "foreign": list(foreign)}
+                for j, ((kind, out), cmd, r) in enumerate(zip(vals, cmds, results)):
+                    others = [tuple(o) for i2, (k2, o) in enumerate(vals) if i2 != j]
+                    o = judge_result(res, "atx", kind, out, cmd, r, True, case, f"command {j + 1} of 7, foreign lines before the answers {foreign}", others)
+                    outs.add(("atx-seq", kind, o))
+                if left:
+                    add_violation(res, "C16:atx:answer-left-unread", f"{case}: lines left unread on the port: {left}", case)
+                res["evaluations"] += 1
         sample(res, {"sync_drivers": ["daliserver", "atxled"], "kinds": KINDS, "outcomes": [list(o) for o in OUTS]})
     res["states"] = len(outs)
     res["distinct"] = outs
@@ -509,9 +576,9 @@ def replay(case):
     res = new_result()
     spec = [(k, tuple(o)) for k, o in case["spec"]]
     drv, mode = case["driver"], case.get("mode", "plain")
-    if mode in ("sync", "sync-seq"):
+    if mode in ("sync", "sync-seq", "atx-seq"):
         return [v for v in run_shard(("sync",))["violations"] if v["case"]["driver"] == drv and v["case"]["spec"] == case["spec"]
-                and v["case"].get("multi") == case.get("multi")]
+                and v["case"].get("multi") == case.get("multi") and v["case"].get("foreign") == case.get("foreign")]
     bound = case.get("bound", 2)
     mk = make_world(drv, spec, mode)
     first = None
